@@ -17,6 +17,15 @@ TRUSTED = [
     "soft errors, fetch streams), real proxyapi Search/ComplexSearch handlers through the add-only export "
     "VerifC16NewGrpcV1, canonicalisation of source numbers through VerifC16SourceByClient",
     "sort.Sort enters the theorems as an arbitrary function returning a sorted permutation",
+    "hand-written model props/C16/coq/ModelDeadline.v of the request context in logical time: a client.Search call on a done "
+    "context fails at once, a call still running at the expiry fails then (searchHost), searchShard treating that as a replica "
+    "error, searchStores' receive loop over the ShardResponses in arrival order (which errors return at once, which are collected, "
+    "errors + data => partial), Search's hot -> cold fallback on the same context, the re-check of the context before the fetch, "
+    "and what Search / ComplexSearch / GetAggregation / GetHistogram hand to doSearch (ShouldFetch, size/offset, hist, aggs)",
+    "deadline driver harness/cmd/hC16/deadline.go: fake stores whose Search blocks until released or until their context is done "
+    "(then the gRPC status of ctx.Err()), released one logical time step after the other after a quiescence wait, the request "
+    "context cancelled at the scripted step; its observation WHICH STORES REALLY ANSWERED is what the specification checker of "
+    "the new classes is evaluated on (not the timed model)",
 ]
 ASSUME = [
     "aggregation values are integers (exact in float64); for bins with >= 8096 samples only Total/Sum/Min/Max/NotExists are "
@@ -25,7 +34,12 @@ ASSUME = [
     "replica errors are not gRPC InvalidArgument statuses (the bad-query path of doSearch is not driven)",
     "query/from/to presence checks, histogram interval parsing, rate limiting, mirroring, the explain tree, the API rendering of "
     "aggregations and the grpc-gateway HTTP re-encoding: not modelled (size/offset validation is)",
-    "context cancellation and timeouts are not modelled",
+    "request context: a store client fails with the context error as soon as its context is done and not earlier (gRPC client "
+    "behaviour, reproduced by the fakes); the driven scripts have pairwise distinct availability / expiry times (one shard moves at "
+    "a time) - simultaneous events are covered by the theorems (every tie-break) but not driven; an expiry between searchStores' "
+    "verdict and Search's re-check is a parameter of the model (gap), proved about, not driven; an expiry DURING the fetch stage "
+    "(Fetch calls / document streams on a done context) is neither modelled nor driven; the handlers' SearchTimeout is the same "
+    "context (the earlier of both expiries) and is driven by a cancel, not by a timer",
 ]
 RULE = ("exhaustive: hot tier 2 shards x 2 replicas, all 5^4 behaviour assignments x cold tier {none, ok, error, "
         "wants-old}; random: topologies up to 3 shards x 3 replicas (+ hot-read tier, + cold tier up to 3 x 2) with "
@@ -43,8 +57,16 @@ RULE = ("exhaustive: hot tier 2 shards x 2 replicas, all 5^4 behaviour assignmen
         "2^63, and bins receiving >= 8096 samples (CMerge); whole API responses of Search / ComplexSearch (CPage: documents with "
         "payloads, int64 total, flag, code, histogram) with size 0, negative size/offset, offset beyond the result, small pages, "
         "explain, with_total off, any pattern of failing fetch calls; histogram key-set scripts and >= 8096-sample bins through "
-        "Ingestor.Search. non-trivial = a search script with at "
-        "least one non-ok replica / a fetch of >= 2 IDs / Documents of >= 2 IDs on >= 2 stores / a CFds request of >= 2 IDs / a merge of >= 2 answers / a page script with a non-ok replica or a failing fetch call; "
+        "Ingestor.Search. REQUEST CONTEXT (CDl / CDlApi): stores that answer when released or fail with ctx.Err(), the request "
+        "context cancelled after j of s shards answered - boundary family: s = 1..3 single-replica shards, every j = 0..s and no "
+        "expiry, every shard the slow one in turn, x {Ingestor.Search with fetch, without fetch, proxyapi Search, ComplexSearch, "
+        "GetAggregation, GetHistogram} x {size 0 (hist-only / aggs-only ComplexSearch), size 4}; random family: up to 3 shards x 3 "
+        "replicas (+ hot-read tier, + cold tier whose stores become available after the hot ones) with behaviours {ok, error, "
+        "wants-old, too-many-fractions, too-many-uniq}, a random order of availability, stores that never answer, expiry before "
+        "everything / between any two availabilities / after everything / never, size 0 on a third, histograms and aggregation "
+        "queries, invalid requests; impl output compared with the timed model and checked against the untimed specification over "
+        "the stores that really answered: complete only if every shard had an answering replica. non-trivial = a search script with at "
+        "least one non-ok replica / a fetch of >= 2 IDs / Documents of >= 2 IDs on >= 2 stores / a CFds request of >= 2 IDs / a merge of >= 2 answers / a page script with a non-ok replica or a failing fetch call / a request-context script whose context expired while a hot shard had not answered or with a non-ok replica; "
         "distinct by script")
 
 
